@@ -75,7 +75,7 @@ PINS = [
     ("<parse::ParseErr as err::Error>::span", "Option::Some(from(clone(arg1.span)))", "the reported span is the stored one", "src/parse.rs", {"C04"}),
     # ---------------- simulator accessors
     ("sim::InternalRegister::default_mmap", "from_iter(array(tuple(65532, InternalRegister::PSR()), tuple(65534, InternalRegister::MCR())))", "PSR is mapped at xFFFC and MCR at xFFFE", "src/sim.rs", {"C32", "C08", "C09"}),
-    ("sim::InternalRegister::read", "[discr(arg1) in [0,0]] => arg2.pc ; [discr(arg1) in [1,1]] => PSR::get(arg2.psr) ; [discr(arg1) in [2,2]] => Shl(from(Atomic::load(deref(arg2.mcr), Ordering::Relaxed())), 15) ; [discr(arg1) in [3,3]] => Word::get(arg2.saved_sp)",
+    ("sim::InternalRegister::read", "[discr(arg1) in [0,0]] => arg2.pc ; [discr(arg1) in [1,1]] => PSR::get(arg2.psr) ; [discr(arg1) in [2,2]] => Shl((Atomic::load(deref(arg2.mcr), Ordering::Relaxed()) as u16), 15) ; [discr(arg1) in [3,3]] => Word::get(arg2.saved_sp)",
      "reading a mapped internal register yields PC / PSR / MCR bit 15 / saved SP", "src/sim.rs", {"C32", "C08"}),
     ("sim::InternalRegister::write", "[discr(arg1) in [0,0]] => () ; [discr(arg1) in [1,1]] => PSR::set(arg2.psr, arg3) ; [discr(arg1) in [2,2]] => Atomic::store(deref(arg2.mcr), Lt((arg3 as i16), 0), Ordering::Relaxed()) ; [discr(arg1) in [3,3]] => Word::set(arg2.saved_sp, arg3)",
      "writing a mapped internal register: PC ignored, PSR through its masking setter, MCR = bit 15, saved SP", "src/sim.rs", {"C32", "C08", "C09", "C12"}),
